@@ -407,7 +407,7 @@ def tags_c08(h, obs):
 
 # ------------------------------------------------------------------------------------------ C03: proof gate
 
-ORIGIN_OK = {"c1": True, "c2": True, "c3": False}     # rule verdict for a well-formed proof (HappyRule / SimFabric rule of the world)
+ORIGIN_OK = {"c1": True, "c2": True, "c3": False, "c4": True}     # rule verdict for a well-formed proof (HappyRule / SimFabric rule of the world)
 
 
 def gen_c03(rng, n, tier):
